@@ -179,11 +179,22 @@ def run_job(job, work, tier, log):
             cmd = ["goto-instrument", "--dfcc", job.entry]
             for f in job.enforce:
                 cmd += ["--enforce-contract", f]
-        for f in job.replace:
+        replace_now = list(job.replace)
+        if replace_now:
+            # a static function the code under contract no longer calls is dropped by goto-cc: there is nothing to replace (and
+            # dfcc refuses a name that has no symbol)
+            rc0, out0, err0, _ = sh(["goto-instrument", "--list-goto-functions", a], timeout=300)
+            present = set(m.group(1) for m in re.finditer(r"^([A-Za-z_]\w*) /\*([^\n]*)\*/", out0, re.M) if "body not available" not in m.group(2))
+            if rc0 == 0 and present:
+                gone = [f for f in replace_now if f not in present]
+                if gone:
+                    info.setdefault("replace_dropped_not_called", []).extend(gone)
+                    replace_now = [f for f in replace_now if f in present]
+        for f in replace_now:
             cmd += ["--replace-call-with-contract", f]
         if job.loops:
             cmd += ["--apply-loop-contracts"]
-        if job.enforce or job.replace or job.loops:
+        if job.enforce or replace_now or job.loops:
             cmd += [a, b]
             rc, out, err, _ = sh(cmd, timeout=600)
             info["cmds"].append(" ".join(cmd))
